@@ -239,6 +239,10 @@ pub struct HeadersFraming {
     pub splits: Vec<u16>,
     /// set the reserved bit of the stream id on the wire
     pub reserved_bit: bool,
+    /// flag bits without a meaning for CONTINUATION frames (0x08, 0x20, 0x01 ...), set on every CONTINUATION frame of the
+    /// block: RFC 7540 4.1 - flags that have no defined semantics for a frame type MUST be ignored
+    #[serde(default)]
+    pub cont_flags: u8,
 }
 
 pub fn headers_frames(block: &[u8], f: &HeadersFraming) -> Vec<Vec<u8>> {
@@ -277,7 +281,7 @@ pub fn headers_frames(block: &[u8], f: &HeadersFraming) -> Vec<Vec<u8>> {
             }
             out.push(frame(T_HEADERS, flags, sid, &p));
         } else {
-            out.push(frame(T_CONTINUATION, if last { F_END_HEADERS } else { 0 }, sid, frag));
+            out.push(frame(T_CONTINUATION, (if last { F_END_HEADERS } else { 0 }) | (f.cont_flags & !F_END_HEADERS), sid, frag));
         }
     }
     out
@@ -386,6 +390,7 @@ pub fn headers_framing() -> impl Strategy<Value = HeadersFraming> {
         proptest::option::weighted(0.3, priority_spec()),
         prop_oneof![5 => Just(vec![]), 3 => vec(any::<u16>(), 1..4), 1 => vec(any::<u16>(), 4..12)],
         proptest::bool::weighted(0.1),
+        prop_oneof![3 => Just(0u8), 1 => prop_oneof![Just(0x08u8), Just(0x20u8), Just(0x28u8), Just(0x01u8), Just(0xfbu8)]],
     )
-        .prop_map(|(stream, end_stream, pad, priority, splits, reserved_bit)| HeadersFraming { stream, end_stream, pad, priority, splits, reserved_bit })
+        .prop_map(|(stream, end_stream, pad, priority, splits, reserved_bit, cont_flags)| HeadersFraming { stream, end_stream, pad, priority, splits, reserved_bit, cont_flags })
 }
